@@ -240,6 +240,7 @@ def sym_pow(b, e, m):
 
 
 POW_HOOK = None
+CIPHER_OVERRIDE = None
 
 # --------------------------------------------------------------------------------------------
 # block ciphers
@@ -257,9 +258,13 @@ class BlockBase(object):
         self.alive = True
 
     def enc(self, block):
+        if CIPHER_OVERRIDE is not None:
+            return CIPHER_OVERRIDE(self.name, self.key, block, False)
         return E(self.name, self.key, block)
 
     def dec(self, block):
+        if CIPHER_OVERRIDE is not None:
+            return CIPHER_OVERRIDE(self.name, self.key, block, True)
         return D(self.name, self.key, block)
 
 
@@ -802,6 +807,9 @@ _lib_cache = {}
 
 def load_pycryptodome_raw_lib(name, cdecl):
     lib_loads.append(name)
+    if name == "Crypto.Math._modexp":
+        # force the pure-Python integer back-end (IntegerNative operates on SymInt); see C14/C16
+        raise OSError("PYSYM: custom-C integer back-end disabled")
     if name in _lib_cache:
         return _lib_cache[name]
     f = LIBS.get(name)
@@ -812,6 +820,8 @@ def load_pycryptodome_raw_lib(name, cdecl):
 
 def install():
     import importlib
+    import os
+    os.environ["PYCRYPTODOME_DISABLE_GMP"] = "1"
     m = importlib.import_module("Crypto.Util._raw_api")
     m.load_pycryptodome_raw_lib = load_pycryptodome_raw_lib
     m.c_uint8_ptr = c_uint8_ptr
